@@ -48,7 +48,7 @@ def either(base):
         if not (impl.startswith('ok ') and model.startswith('ok ')):
             return impl == model
         t = model.split(' ')
-        return len(t) == 3 and (base(impl, 'ok ' + t[1]) or base(impl, 'ok ' + t[2]))
+        return len(t) == 4 and any(base(impl, 'ok ' + x) for x in t[1:])
     return cmp
 
 
@@ -56,13 +56,22 @@ def which_variant(impl, model, base=None):
     """'intended' / 'current' / None — which of the two model answers the implementation matches"""
     base = base or cmp_last
     t = model.split(' ')
-    if len(t) != 3 or not impl.startswith('ok '):
+    if len(t) != 4 or not impl.startswith('ok '):
         return None
-    if base(impl, 'ok ' + t[1]):
-        return 'intended'
-    if base(impl, 'ok ' + t[2]):
-        return 'current'
+    for name, x in zip(('intended', 'current', 'current-grid'), t[1:]):
+        if base(impl, 'ok ' + x):
+            return name
     return None
+
+
+def cmp_grid(impl, model):
+    """first list: the dense grid, must match; second: get_freqs — today's linspace text, or (once repaired) the dense grid again"""
+    a, b = impl.split(' '), model.split(' ')
+    if len(a) != 3 or len(b) != 3:
+        return False
+    ok1 = close_gen(parse_flist(a[1]), parse_flist(b[1]))
+    g = parse_flist(a[2])
+    return ok1 and (close_gen(g, parse_flist(b[2])) or close_gen(g, parse_flist(b[1])))
 
 
 def mk_cmp_angles(mask, circle, tol=1e-6):
@@ -102,6 +111,10 @@ def make_scenarios(rng, tier, seed):
         if big and n >= 1024 and NFFT < 32:
             NFFT = 64
         nov = None if rng.random() < 0.35 else rng.randrange(0, NFFT)
+        if n > 256:      # keep the number of segments of long records near 60 (the model's DFT is the naive one)
+            min_step = min(NFFT, (n - NFFT) // 60 + 1)
+            if nov is not None and NFFT - nov < min_step:
+                nov = NFFT - min_step
         wk = rng.choice(['hann', 'hann', 'hamming', 'rand'])
         Fs = rng.choice([1.0, 2.0, 2 * math.pi, 10.0, 250.0, rng.uniform(0.1, 100)])
         # band: full, or off-grid edges
@@ -167,6 +180,12 @@ def impl_results(sc):
         psd = A.cache_to_psd(cache, ij)
         rel = A.cache_to_relative_phase(cache, ij)
         ph = A.cache_to_phase(cache, ij)
+        nb_ = int(cache['FFT_slices'][chans[0]].shape[1])
+        freqs = np.array(freqs)
+        if len(freqs) != nb_:      # older trees return the full grid: cut the band the way cache_fft does
+            import nitime.utils as U
+            l_, u_ = U.get_bounds(freqs, sc['lb'], sc['ub'])
+            freqs = freqs[l_:u_]
         return {'freqs': np.array(freqs),
                 'coherency': np.array([coh[i, j] for i, j in ij]).reshape(len(ij), -1),
                 'psd': np.array([np.real(np.asarray(psd[c])).reshape(-1) for c in chans]),
@@ -222,10 +241,10 @@ def cases_of(sc, R, si):
     if isinstance(c, str):
         out.append(Case(pre % 'coherency', c, 'cache/error', meta=meta('error')))
     else:
-        fr = c['freqs']
-        li = int(np.searchsorted(fr, sc['lb'], 'left'))
-        ui = len(fr) if sc['ub'] is None else int(np.searchsorted(fr, sc['ub'], 'right'))
-        out.append(Case(pre % 'freqs', 'ok ' + flist(list(fr) + list(fr[li:ui])), 'cache/freqs', cmp=either(cmp_last), meta=meta('freqs')))
+        fr = c['freqs']          # the frequencies of the cached band
+        fdense = np.arange(nf) * sc['Fs'] / sc['NFFT']
+        li = int(np.searchsorted(fdense, sc['lb'], 'left'))
+        out.append(Case(pre % 'freqs', 'ok ' + flist(fr), 'cache/freqs', cmp=either(cmp_last), meta=meta('freqs')))
         out.append(Case(pre % 'coherency', 'ok ' + clist(c['coherency'].reshape(-1)), 'cache/coherency', cmp=either(cmp_last), meta=meta('coherency')))
         out.append(Case(pre % 'psd', 'ok ' + flist(c['psd'].reshape(-1)), 'cache/psd', cmp=either(cmp_last), meta=meta('psd')))
         nb = c['coherency'].shape[1]
@@ -250,6 +269,12 @@ def cases_of(sc, R, si):
     line = 'C09 seed %s %d %d %s %s %d %s' % (head(sc, 'dcache'), sc['sbf'], sc['psm'], f2x(sc['lb']), ubt, ns, ' '.join(flist(x) for x in X))
     out.append(Case(line, sd if isinstance(sd, str) else 'ok ' + clist(np.asarray(sd['coherency']).reshape(-1)), 'seed/coherency',
                     cmp=either(cmp_last), meta=meta('seed')))
+    # the two frequency formulas of the generic model: k*Fs/N against the dense grid, the linspace text against utils.get_freqs
+    if not isinstance(R['dense'], str):
+        import nitime.utils as U
+        fd = np.asarray(R['dense'][0])
+        out.append(Case('C09 grid %s %d' % (f2x(sc['Fs']), sc['NFFT']), 'ok %s %s' % (flist(fd), flist(U.get_freqs(sc['Fs'], sc['NFFT']))),
+                        'grid/formulas', cmp=cmp_grid, meta=meta('grid')))
     # the dense side of the refinement, on the band the dense grid selects
     d = R['dense_coh']
     if not isinstance(d, str):
@@ -318,7 +343,7 @@ def judge(sc, R):
         return None if e <= tol * sc_ else 'max difference %.3g (scale %.3g)' % (e, sc_)
 
     # frequencies
-    w = differs(c['freqs'][int(np.searchsorted(c['freqs'], sc['lb'], 'left')):(len(c['freqs']) if sc['ub'] is None else int(np.searchsorted(c['freqs'], sc['ub'], 'right')))], f[li:ui])
+    w = differs(c['freqs'], f[li:ui])
     if w:
         fails.append(('freqs/%s/ne-dense' % cls, 'cached frequencies differ from the dense grid: ' + w, 'freqs'))
     s = R['sparse']
@@ -388,9 +413,12 @@ def oracle(rng, tier, seed, focus, cases=None):
     for si, (sc, R) in enumerate(zip(_SC.get('list', []), _SC.get('res', []))):
         nj += 1
         for key, what, obs in judge(sc, R):
-            for c in by.get((si, obs), [None]):
+            # a wrong frequency grid (odd NFFT) moves the band: every observable of the scenario is affected
+            cs = [c for (s_, o_), l_ in by.items() if s_ == si for c in l_] if 'odd-nfft' in key else by.get((si, obs), [None])
+            for c in (cs or [None]):
                 fails.append(Failure(key, what, {'scenario': sc, 'key': key}, case=c))
-    return fails, {'scenarios_judged': nj, 'failed': len(fails), 'focus': len(focus)}
+    return fails, {'scenarios_judged': nj, 'failed_checks': len({(id(f.replay['scenario']), f.key) for f in fails}),
+                   'distinct_failure_keys': len({f.key for f in fails}), 'focus': len(focus)}
 
 
 def replay(d):
